@@ -82,6 +82,10 @@ def gen_cases(ctx):
         # a copy of the dispatcher (copy.deepcopy) is made mid-history and advanced on its own;
         # the filters applied to the original must not notice
         c["fork_at"] = rng.choice([None] * 5 + [1, 2, rng.randint(1, 8)])
+        if c.get("filter") and i % 9 == 4:
+            # the installed filter is wrapped by user code that fails once in a while; the caller
+            # catches the error and asks again
+            c["filter"] = dict(c["filter"], flaky=True)
         yield c
 
 
@@ -278,6 +282,8 @@ def run_case(ctx, case):
             plt.close(fig)
             ctx.count("states_shown_to_the_partial_gantt_plotter")
         # available_operations() applies the installed filter to the raw ready list
+        if rng.random() < 0.4 and gen.fail_once(d, rng.choice([d.available_operations, d.current_time])):
+            ctx.count("available_list_asked_again_after_a_filter_failure")
         avail = d.available_operations()
         ctx.count("available_ops_checks")
         raw = d.raw_ready_operations()
